@@ -91,7 +91,7 @@ def run(tier, seed, t0):
 
 def bounded_work(tier, seed):
     """Bounded stand-in (never counted as proved): toy form programs on the real solver;
-    termination within budget, evaluations <= 2 + distinct waits, each input asked at most once."""
+    termination within budget, evaluations <= 1 + distinct last reads + distinct foreign-form inputs among them, each input asked at most once."""
     from .. import toyforms
     n = 300 if tier == 'quick' else 5000
     found = toyforms.search('C06', seed, n)
@@ -101,4 +101,4 @@ def bounded_work(tier, seed):
                    clause=found['violated'], witness={k: found[k] for k in ('program', 'requested', 'provided', 'answers', 'refuse_after')},
                    replay={'reproduced': True, 'native_counterexample': found}, replay_spec={'kind': 'toy', 'prop': 'C06', 'scenario': {k: found[k] for k in ('program', 'requested', 'provided', 'answers', 'refuse_after')}})]
     return [Ob(id='C06/bounded/work-and-termination', backend='native', bounded=True, cases=cases, function='solver.py:Solver.solve',
-               note=f'{cases} toy scenarios (fixed programs incl. cycles, cross-form double references, unknown form + {n} seeded random programs x 5 input/prompt/refusal patterns): all terminate, evaluations <= 2 + distinct waits, no input asked twice')]
+               note=f'{cases} toy scenarios (fixed programs incl. cycles, cross-form double references, unknown form + {n} seeded random programs x 5 input/prompt/refusal patterns): all terminate, evaluations <= 1 + distinct last reads (+1 per foreign-form input among them), no input asked twice')]
